@@ -2,41 +2,31 @@
   C03 — No free value: no operation or round trip pays out more than it debits.
 
   Values are compared exactly, in units of 2^-96 tokens: a position's asset value is
-  `shares·asv` (product of two 2^-48 bit patterns), `n` tokens are `n·2^96`. Theorems are about
-  Mfi/Model/Bank.lean, diffed against the real BankAccountWrapper by the `wrapper` family.
+  `shares·asv` (product of two 2^-48 bit patterns), `n` tokens are `n·2^96`. The theorems about
+  Mfi/Model/Bank.lean (diffed against the real BankAccountWrapper by the `wrapper` family) are proved in
+  Mfi/Lemmas/FreeL.lean and restated here in full; the theorems about the WHOLE instructions of Mfi/Model/World.lean are
+  proved in Mfi/Lemmas/WorldFree.lean.
 -/
-import Mfi.Model.Bank
-import Mfi.Model.Token
-import Mfi.Lemmas.FxL
-import Mfi.Lemmas.ResL
-import Mfi.Lemmas.BankL
-import Mfi.Lemmas.TagL
+import Mfi.Lemmas.FreeL
+import Mfi.Lemmas.WorldFree
 
 namespace Mfi.Props.C03
 open Mfi Mfi.Fx Mfi.Bank Mfi.Gen Mfi.Token
 
-/-- net position value of a balance at the bank's share values, in 2^-96 token units -/
-def netValue (b : Bank) (x : Balance) : Int := x.a * b.asv - x.l * b.lsv
+export Mfi.FreeL (netValue Holder UserOp phi applyOp opAmount Good runOps FeeCfgOk demoBank demoUser)
 
 /-- trunc(v·2^48 / sv)·sv ≤ v·2^48 : shares bought with `v` are worth at most `v` -/
 theorem shares_value_le {v sv s : Int} (hv : 0 ≤ v) (hsv : 0 < sv) (h : div? v sv = some s) :
-    s * sv ≤ v * ONE ∧ v * ONE < (s + 1) * sv ∧ 0 ≤ s := by
-  obtain ⟨hne, es, _, _⟩ := div?_some h
-  rw [tdiv_nonneg (by have := ONE_pos; positivity)] at es
-  subst es
-  exact ⟨Int.ediv_mul_le _ hne, Int.lt_ediv_add_one_mul_self _ hsv,
-    Int.ediv_nonneg (by have := ONE_pos; positivity) (le_of_lt hsv)⟩
+    s * sv ≤ v * ONE ∧ v * ONE < (s + 1) * sv ∧ 0 ≤ s :=
+  Mfi.FreeL.shares_value_le hv hsv h
 
 theorem assetShares_spec {b : Bank} {v s : Int} (hv : 0 ≤ v) (hsv : 0 < b.asv) (h : assetShares b v = .ok s) :
-    s * b.asv ≤ v * ONE ∧ v * ONE < (s + 1) * b.asv ∧ 0 ≤ s := by
-  unfold assetShares at h
-  have : ¬ b.asv = 0 := by omega
-  simp only [this, ↓reduceIte] at h
-  exact shares_value_le hv hsv (math_ok h)
+    s * b.asv ≤ v * ONE ∧ v * ONE < (s + 1) * b.asv ∧ 0 ≤ s :=
+  Mfi.FreeL.assetShares_spec hv hsv h
 
 theorem liabShares_spec {b : Bank} {v s : Int} (hv : 0 ≤ v) (hsv : 0 < b.lsv) (h : liabShares b v = .ok s) :
     s * b.lsv ≤ v * ONE ∧ v * ONE < (s + 1) * b.lsv ∧ 0 ≤ s :=
-  shares_value_le hv hsv (math_ok h)
+  Mfi.FreeL.liabShares_spec hv hsv h
 
 /-- **deposit_credit_le / repay_relief_le**: any successful balance increase by `delta` (deposit,
     repay, liquidation credit) raises the position's net value by AT MOST `delta` — never more than
@@ -44,32 +34,8 @@ theorem liabShares_spec {b : Bank} {v s : Int} (hv : 0 ≤ v) (hsv : 0 < b.lsv) 
 theorem increase_no_gain {b0 b' : Bank} {x0 x' : Balance} {now delta : Int} {t : IncType}
     (h : increaseBalance b0 x0 now delta t = .ok (b', x'))
     (hd : 0 ≤ delta) (hasv : 0 < b0.asv) (hlsv : 0 < b0.lsv) (hl : 0 ≤ x0.l) :
-    netValue b' x' - netValue b0 x0 ≤ delta * ONE := by
-  obtain ⟨b1, x1, curL, d, aInc, lDec, b2, b3, hc, hcur, hsub, _, _, ha, hb2, hld, hb3, _, _, _, _, hx', ⟨lc, bc, hb'⟩⟩ :=
-    (increase_spec h).ex
-  obtain ⟨⟨r, hb1⟩, ⟨e, hx1⟩⟩ := claim_frame hc
-  obtain ⟨e2, _, _⟩ := changeAsset_frame hb2
-  obtain ⟨e3, _, _⟩ := changeLiab_frame hb3
-  have ed := (sub?_some hsub).1
-  have ecur := (mul?_some (math_ok hcur)).1
-  have hx1l : x1.l = x0.l := by rw [hx1]
-  have hx1a : x1.a = x0.a := by rw [hx1]
-  have hcur0 : 0 ≤ curL := by
-    rw [ecur, hx1l, hb1]; exact Int.ediv_nonneg (mul_nonneg hl (le_of_lt hlsv)) (le_of_lt ONE_pos)
-  have hb1asv : b1.asv = b0.asv := by rw [hb1]
-  have hb2lsv : b2.lsv = b0.lsv := by rw [e2, hb1]
-  have sa := assetShares_spec (b := b1) (v := max d 0) (by omega) (by rw [hb1asv]; exact hasv) ha
-  have sl := liabShares_spec (b := b2) (v := min curL delta) (by omega) (by rw [hb2lsv]; exact hlsv) hld
-  rw [hb1asv] at sa
-  rw [hb2lsv] at sl
-  have hb'asv : b'.asv = b0.asv := by rw [hb', e3, e2, hb1]
-  have hb'lsv : b'.lsv = b0.lsv := by rw [hb', e3, e2, hb1]
-  unfold netValue
-  rw [hb'asv, hb'lsv, hx']
-  simp only [hx1a, hx1l]
-  have hsum : max d 0 + min curL delta = delta := by omega
-  have : (max d 0) * ONE + (min curL delta) * ONE = delta * ONE := by rw [← add_mul, hsum]
-  nlinarith [sa.1, sl.1]
+    netValue b' x' - netValue b0 x0 ≤ delta * ONE :=
+  Mfi.FreeL.increase_no_gain h hd hasv hlsv hl
 
 /-- **withdraw_payout_le / borrow_debit_ge**: any successful balance decrease by `delta` (withdraw,
     borrow, liquidation debit) lowers the position's net value by MORE than `delta − (asv + lsv)·2^-48`:
@@ -77,33 +43,8 @@ theorem increase_no_gain {b0 b' : Bank} {x0 x' : Balance} {now delta : Int} {t :
 theorem decrease_bounded_gain {b0 b' : Bank} {x0 x' : Balance} {now delta : Int} {t : DecType}
     (h : decreaseBalance b0 x0 now delta t = .ok (b', x'))
     (hd : 0 ≤ delta) (hasv : 0 < b0.asv) (hlsv : 0 < b0.lsv) (ha0 : 0 ≤ x0.a) :
-    delta * ONE - (b0.asv + b0.lsv) < netValue b0 x0 - netValue b' x' := by
-  obtain ⟨b1, x1, curA, d, aDec, lInc, b2, b3, hc, hcur, hsub, _, _, ha, hb2, hld, hb3, _, _, _, _, _, hx', ⟨lc, bc, hb'⟩⟩ :=
-    (decrease_spec h).ex
-  obtain ⟨⟨r, hb1⟩, ⟨e, hx1⟩⟩ := claim_frame hc
-  obtain ⟨e2, _, _⟩ := changeAsset_frame hb2
-  obtain ⟨e3, _, _⟩ := changeLiab_frame hb3
-  have ed := (sub?_some hsub).1
-  have ecur := (mul?_some (math_ok hcur)).1
-  have hx1l : x1.l = x0.l := by rw [hx1]
-  have hx1a : x1.a = x0.a := by rw [hx1]
-  have hcur0 : 0 ≤ curA := by
-    rw [ecur, hx1a, hb1]; exact Int.ediv_nonneg (mul_nonneg ha0 (le_of_lt hasv)) (le_of_lt ONE_pos)
-  have hb1asv : b1.asv = b0.asv := by rw [hb1]
-  have hb2lsv : b2.lsv = b0.lsv := by rw [e2, hb1]
-  have sa := assetShares_spec (b := b1) (v := min curA delta) (by omega) (by rw [hb1asv]; exact hasv) ha
-  have sl := liabShares_spec (b := b2) (v := max d 0) (by omega) (by rw [hb2lsv]; exact hlsv) hld
-  rw [hb1asv] at sa
-  rw [hb2lsv] at sl
-  have hb'asv : b'.asv = b0.asv := by rw [hb', e3, e2, hb1]
-  have hb'lsv : b'.lsv = b0.lsv := by rw [hb', e3, e2, hb1]
-  unfold netValue
-  rw [hb'asv, hb'lsv, hx']
-  simp only [hx1a, hx1l]
-  have hsum : min curA delta + max d 0 = delta := by omega
-  have : (min curA delta) * ONE + (max d 0) * ONE = delta * ONE := by rw [← add_mul, hsum]
-  nlinarith [sa.2.1, sl.2.1]
-
+    delta * ONE - (b0.asv + b0.lsv) < netValue b0 x0 - netValue b' x' :=
+  Mfi.FreeL.decrease_bounded_gain h hd hasv hlsv ha0
 
 /-- **withdraw_all rounds down**: the tokens paid by a full withdrawal never exceed the exact value
     of the closed deposit (`payout·2^96 ≤ shares·asv`); the only thing the user can "gain" is the
@@ -111,289 +52,48 @@ theorem decrease_bounded_gain {b0 b' : Bank} {x0 x' : Balance} {now delta : Int}
 theorem withdraw_all_rounds_down {b0 b' : Bank} {x0 x' : Balance} {now amt : Int}
     (h : withdrawAll b0 x0 now = .ok (b', x', amt)) (hasv : 0 ≤ b0.asv) (ha : 0 ≤ x0.a) :
     amt * ONE * ONE ≤ x0.a * b0.asv ∧ x'.a = 0 ∧ x'.l = 0 ∧ x'.active = false ∧
-    (∃ curL, liabAmount b0 x0.l = .ok curL ∧ isZeroTol curL ZERO_AMOUNT_THRESHOLD = true) := by
-  unfold withdrawAll at h
-  obtain ⟨⟨b1, x1⟩, hc, h⟩ := Res.bind_ok h
-  dsimp only at h
-  obtain ⟨curA, hcurA, h⟩ := Res.bind_ok h
-  obtain ⟨curL, hcurL, h⟩ := Res.bind_ok h
-  obtain ⟨_, _, h⟩ := Res.bind_ok h
-  obtain ⟨_, hz, h⟩ := Res.bind_ok h
-  obtain ⟨bal', hclose, h⟩ := Res.bind_ok h
-  obtain ⟨b2, _, h⟩ := Res.bind_ok h
-  obtain ⟨_, _, h⟩ := Res.bind_ok h
-  obtain ⟨dust, _, h⟩ := Res.bind_ok h
-  obtain ⟨f, _, h⟩ := Res.bind_ok h
-  obtain ⟨amt', hamt, h⟩ := Res.bind_ok h
-  injection h with h
-  injection h with h1 h2
-  injection h2 with h2 h3
-  subst h3
-  obtain ⟨⟨r, hb1⟩, ⟨e, hx1⟩⟩ := claim_frame hc
-  have ecur := (mul?_some (math_ok hcurA)).1
-  have hx1a : x1.a = x0.a := by rw [hx1]
-  have hx1l : x1.l = x0.l := by rw [hx1]
-  have hb1asv : b1.asv = b0.asv := by rw [hb1]
-  have hb1lsv : b1.lsv = b0.lsv := by rw [hb1]
-  have hclosed : bal' = emptyDeactivated := by
-    unfold closeBalance at hclose
-    split at hclose
-    · cases hclose
-    · injection hclose with hclose; exact hclose.symm
-  -- amt = floor(curA)/ONE
-  have hfl : amt' = curA / ONE := by
-    have := math_ok hamt
-    unfold toU64? at this
-    simp only at this
-    split at this
-    · injection this with this
-      rw [← this]; unfold floor; exact Int.mul_ediv_cancel _ (by decide)
-    · cases this
-  refine ⟨?_, by rw [← h2, hclosed]; rfl, by rw [← h2, hclosed]; rfl, by rw [← h2, hclosed]; rfl, ?_⟩
-  · rw [hfl, ecur, hx1a, hb1asv]
-    have h1' : x0.a * b0.asv / ONE / ONE * ONE ≤ x0.a * b0.asv / ONE := mulfloor_le _
-    have h2' : x0.a * b0.asv / ONE * ONE ≤ x0.a * b0.asv := mulfloor_le _
-    have := ONE_pos
-    nlinarith
-  · refine ⟨curL, ?_, chk_ok hz⟩
-    unfold liabAmount at hcurL ⊢
-    rw [hx1l, hb1lsv] at hcurL
-    exact hcurL
+    (∃ curL, liabAmount b0 x0.l = .ok curL ∧ isZeroTol curL ZERO_AMOUNT_THRESHOLD = true) :=
+  Mfi.FreeL.withdraw_all_rounds_down h hasv ha
 
 /-- **repay_all rounds up**: the tokens charged by a full repayment are at least the exact value
     of the closed debt minus one 2^-48 ulp (`charge·2^96 > shares·lsv − 2^48`). -/
 theorem repay_all_rounds_up {b0 b' : Bank} {x0 x' : Balance} {now amt : Int}
     (h : repayAll b0 x0 now = .ok (b', x', amt)) :
-    x0.l * b0.lsv - ONE < amt * ONE * ONE ∧ x'.a = 0 ∧ x'.l = 0 ∧ x'.active = false := by
-  unfold repayAll at h
-  obtain ⟨⟨b1, x1⟩, hc, h⟩ := Res.bind_ok h
-  dsimp only at h
-  obtain ⟨curL, hcurL, h⟩ := Res.bind_ok h
-  obtain ⟨curA, hcurA, h⟩ := Res.bind_ok h
-  obtain ⟨_, _, h⟩ := Res.bind_ok h
-  obtain ⟨_, hz, h⟩ := Res.bind_ok h
-  obtain ⟨bal', hclose, h⟩ := Res.bind_ok h
-  obtain ⟨b2, _, h⟩ := Res.bind_ok h
-  obtain ⟨spl, hspl, h⟩ := Res.bind_ok h
-  obtain ⟨dust, _, h⟩ := Res.bind_ok h
-  obtain ⟨f, _, h⟩ := Res.bind_ok h
-  obtain ⟨amt', hamt, h⟩ := Res.bind_ok h
-  injection h with h
-  injection h with h1 h2
-  injection h2 with h2 h3
-  subst h3
-  obtain ⟨⟨r, hb1⟩, ⟨e, hx1⟩⟩ := claim_frame hc
-  have ecur := (mul?_some (math_ok hcurL)).1
-  have hx1l : x1.l = x0.l := by rw [hx1]
-  have hb1lsv : b1.lsv = b0.lsv := by rw [hb1]
-  have hclosed : bal' = emptyDeactivated := by
-    unfold closeBalance at hclose
-    split at hclose
-    · cases hclose
-    · injection hclose with hclose; exact hclose.symm
-  -- spl = ceil(curL) = -((-curL)/ONE)·ONE ≥ curL ; amt = spl / ONE
-  have hceil := (chk_eq_some (math_ok hspl)).1
-  have hamt' : amt' = spl / ONE := by
-    have := math_ok hamt
-    unfold toU64? at this
-    simp only at this
-    split at this
-    · injection this with this; exact this.symm
-    · cases this
-  refine ⟨?_, by rw [← h2, hclosed]; rfl, by rw [← h2, hclosed]; rfl, by rw [← h2, hclosed]; rfl⟩
-  have hge : curL ≤ spl := by
-    rw [hceil]
-    have := mulfloor_le (-curL)
-    linarith
-  have hdiv : spl / ONE * ONE = spl := by
-    rw [hceil]
-    rw [Int.mul_ediv_cancel _ (by decide)]
-  have hlt : x0.l * b0.lsv < (curL + 1) * ONE := by
-    rw [ecur, hx1l, hb1lsv]; exact mulfloor_gt _
-  rw [hamt']
-  have := ONE_pos
-  nlinarith
+    x0.l * b0.lsv - ONE < amt * ONE * ONE ∧ x'.a = 0 ∧ x'.l = 0 ∧ x'.active = false :=
+  Mfi.FreeL.repay_all_rounds_up h
 
-/-! ### the potential argument: sequences of operations on one position -/
-
-/-- a user's holdings relevant to one bank: wallet tokens and the position -/
-structure Holder where
-  wallet : Int
-  bal : Balance
-
-inductive UserOp
-  | deposit (n : Int)   -- tokens (pre-fee amount leaving the wallet is ≥ n; equality for fee-less mints)
-  | withdraw (n : Int)
-  | borrow (n : Int)
-  | repay (n : Int)
-  deriving Repr
-
-/-- potential: wallet tokens + net position value, in 2^-96 token units -/
-def phi (b : Bank) (u : Holder) : Int := u.wallet * ONE * ONE + netValue b u.bal
-
-/-- one user operation on the model (token legs: exactly the booked amount; a Token-2022 transfer
-    fee only ever takes MORE from the wallet on the way in, see `prefee_covers` in C01) -/
-def applyOp (b : Bank) (u : Holder) (now : Int) (op : UserOp) : Res (Bank × Holder) :=
-  match op with
-  | .deposit n => (increaseBalance b u.bal now (ofInt n) .depositOnly).map fun (b', x') => (b', ⟨u.wallet - n, x'⟩)
-  | .repay n => (increaseBalance b u.bal now (ofInt n) .repayOnly).map fun (b', x') => (b', ⟨u.wallet - n, x'⟩)
-  | .withdraw n => (decreaseBalance b u.bal now (ofInt n) .withdrawOnly).map fun (b', x') => (b', ⟨u.wallet + n, x'⟩)
-  | .borrow n => (decreaseBalance b u.bal now (ofInt n) .borrowOnly).map fun (b', x') => (b', ⟨u.wallet + n, x'⟩)
-
-def opAmount : UserOp → Int
-  | .deposit n | .withdraw n | .borrow n | .repay n => n
-
-theorem map_ok {α β : Type} {r : Res α} {f : α → β} {y : β} (h : r.map f = .ok y) : ∃ a, r = .ok a ∧ f a = y := by
-  cases r with
-  | error e => cases h
-  | ok a => exact ⟨a, rfl, by injection h⟩
+theorem map_ok {α β : Type} {r : Res α} {f : α → β} {y : β} (h : r.map f = .ok y) : ∃ a, r = .ok a ∧ f a = y :=
+  Mfi.FreeL.map_ok h
 
 /-- share values are untouched by user operations -/
 theorem inc_sv {b0 b' : Bank} {x0 x' : Balance} {now delta : Int} {t : IncType}
-    (h : increaseBalance b0 x0 now delta t = .ok (b', x')) : b'.asv = b0.asv ∧ b'.lsv = b0.lsv := by
-  obtain ⟨b1, x1, _, _, _, _, b2, b3, hc, _, _, _, _, _, hb2, _, hb3, _, _, _, _, _, ⟨lc, bc, hb'⟩⟩ := (increase_spec h).ex
-  obtain ⟨⟨r, hb1⟩, _⟩ := claim_frame hc
-  obtain ⟨e2, _, _⟩ := changeAsset_frame hb2
-  obtain ⟨e3, _, _⟩ := changeLiab_frame hb3
-  exact ⟨by rw [hb', e3, e2, hb1], by rw [hb', e3, e2, hb1]⟩
+    (h : increaseBalance b0 x0 now delta t = .ok (b', x')) : b'.asv = b0.asv ∧ b'.lsv = b0.lsv :=
+  Mfi.FreeL.inc_sv h
 
 theorem dec_sv {b0 b' : Bank} {x0 x' : Balance} {now delta : Int} {t : DecType}
-    (h : decreaseBalance b0 x0 now delta t = .ok (b', x')) : b'.asv = b0.asv ∧ b'.lsv = b0.lsv := by
-  obtain ⟨b1, x1, _, _, _, _, b2, b3, hc, _, _, _, _, _, hb2, _, hb3, _, _, _, _, _, _, ⟨lc, bc, hb'⟩⟩ := (decrease_spec h).ex
-  obtain ⟨⟨r, hb1⟩, _⟩ := claim_frame hc
-  obtain ⟨e2, _, _⟩ := changeAsset_frame hb2
-  obtain ⟨e3, _, _⟩ := changeLiab_frame hb3
-  exact ⟨by rw [hb', e3, e2, hb1], by rw [hb', e3, e2, hb1]⟩
+    (h : decreaseBalance b0 x0 now delta t = .ok (b', x')) : b'.asv = b0.asv ∧ b'.lsv = b0.lsv :=
+  Mfi.FreeL.dec_sv h
 
 /-- position shares stay non-negative -/
 theorem inc_nonneg {b0 b' : Bank} {x0 x' : Balance} {now delta : Int} {t : IncType}
     (h : increaseBalance b0 x0 now delta t = .ok (b', x'))
     (hd : 0 ≤ delta) (hasv : 0 < b0.asv) (hlsv : 0 < b0.lsv) (ha : 0 ≤ x0.a) (hl : 0 ≤ x0.l) :
-    0 ≤ x'.a ∧ 0 ≤ x'.l := by
-  obtain ⟨b1, x1, curL, d, aInc, lDec, b2, b3, hc, hcur, hsub, _, _, has, hb2, hld, hb3, _, _, _, _, hx', _⟩ :=
-    (increase_spec h).ex
-  obtain ⟨⟨r, hb1⟩, ⟨e, hx1⟩⟩ := claim_frame hc
-  obtain ⟨e2, _, _⟩ := changeAsset_frame hb2
-  have ecur := (mul?_some (math_ok hcur)).1
-  have hx1l : x1.l = x0.l := by rw [hx1]
-  have hx1a : x1.a = x0.a := by rw [hx1]
-  have hb1asv : b1.asv = b0.asv := by rw [hb1]
-  have hb1lsv : b1.lsv = b0.lsv := by rw [hb1]
-  have hb2lsv : b2.lsv = b0.lsv := by rw [e2, hb1]
-  have hcur0 : 0 ≤ curL := by
-    rw [ecur, hx1l, hb1lsv]; exact Int.ediv_nonneg (mul_nonneg hl (le_of_lt hlsv)) (le_of_lt ONE_pos)
-  have sa := assetShares_spec (b := b1) (v := max d 0) (by omega) (by rw [hb1asv]; exact hasv) has
-  have sl := liabShares_spec (b := b2) (v := min curL delta) (by omega) (by rw [hb2lsv]; exact hlsv) hld
-  rw [hb2lsv] at sl
-  rw [hx']
-  simp only [hx1a, hx1l]
-  refine ⟨by omega, ?_⟩
-  -- lDec·lsv ≤ min(curL, delta)·ONE ≤ curL·ONE ≤ l·lsv  ⇒ lDec ≤ l
-  have h1 : lDec * b0.lsv ≤ curL * ONE := by
-    have : min curL delta * ONE ≤ curL * ONE := mul_le_mul_of_nonneg_right (by omega) (le_of_lt ONE_pos)
-    linarith [sl.1]
-  have h2 : curL * ONE ≤ x0.l * b0.lsv := by rw [ecur, hx1l, hb1lsv]; exact mulfloor_le _
-  have : lDec * b0.lsv ≤ x0.l * b0.lsv := le_trans h1 h2
-  have := le_of_mul_le_mul_right this hlsv
-  omega
+    0 ≤ x'.a ∧ 0 ≤ x'.l :=
+  Mfi.FreeL.inc_nonneg h hd hasv hlsv ha hl
 
 theorem dec_nonneg {b0 b' : Bank} {x0 x' : Balance} {now delta : Int} {t : DecType}
     (h : decreaseBalance b0 x0 now delta t = .ok (b', x'))
     (hd : 0 ≤ delta) (hasv : 0 < b0.asv) (hlsv : 0 < b0.lsv) (ha : 0 ≤ x0.a) (hl : 0 ≤ x0.l) :
-    0 ≤ x'.a ∧ 0 ≤ x'.l := by
-  obtain ⟨b1, x1, curA, d, aDec, lInc, b2, b3, hc, hcur, hsub, _, _, has, hb2, hld, hb3, _, _, _, _, _, hx', _⟩ :=
-    (decrease_spec h).ex
-  obtain ⟨⟨r, hb1⟩, ⟨e, hx1⟩⟩ := claim_frame hc
-  obtain ⟨e2, _, _⟩ := changeAsset_frame hb2
-  have ecur := (mul?_some (math_ok hcur)).1
-  have hx1l : x1.l = x0.l := by rw [hx1]
-  have hx1a : x1.a = x0.a := by rw [hx1]
-  have hb1asv : b1.asv = b0.asv := by rw [hb1]
-  have hb2lsv : b2.lsv = b0.lsv := by rw [e2, hb1]
-  have hcur0 : 0 ≤ curA := by
-    rw [ecur, hx1a, hb1asv]; exact Int.ediv_nonneg (mul_nonneg ha (le_of_lt hasv)) (le_of_lt ONE_pos)
-  have sa := assetShares_spec (b := b1) (v := min curA delta) (by omega) (by rw [hb1asv]; exact hasv) has
-  have sl := liabShares_spec (b := b2) (v := max d 0) (by omega) (by rw [hb2lsv]; exact hlsv) hld
-  rw [hb1asv] at sa
-  rw [hx']
-  simp only [hx1a, hx1l]
-  refine ⟨?_, by omega⟩
-  have h1 : aDec * b0.asv ≤ curA * ONE := by
-    have : min curA delta * ONE ≤ curA * ONE := mul_le_mul_of_nonneg_right (by omega) (le_of_lt ONE_pos)
-    linarith [sa.1]
-  have h2 : curA * ONE ≤ x0.a * b0.asv := by rw [ecur, hx1a, hb1asv]; exact mulfloor_le _
-  have : aDec * b0.asv ≤ x0.a * b0.asv := le_trans h1 h2
-  have := le_of_mul_le_mul_right this hasv
-  omega
-
-/-- state carried along a history: positive share values, non-negative shares -/
-def Good (b : Bank) (u : Holder) : Prop := 0 < b.asv ∧ 0 < b.lsv ∧ 0 ≤ u.bal.a ∧ 0 ≤ u.bal.l
+    0 ≤ x'.a ∧ 0 ≤ x'.l :=
+  Mfi.FreeL.dec_nonneg h hd hasv hlsv ha hl
 
 /-- **op_gain_le**: one successful deposit / withdraw / borrow / repay of a non-negative token amount
     changes `wallet + net position value` by LESS than (asv + lsv)·2^-48 tokens — and not at all
     in the user's favour for deposits and repayments. -/
 theorem op_gain_le {b b' : Bank} {u u' : Holder} {now : Int} {op : UserOp}
     (h : applyOp b u now op = .ok (b', u')) (hg : Good b u) (hn : 0 ≤ opAmount op) :
-    phi b' u' < phi b u + (b.asv + b.lsv) ∧ Good b' u' ∧ b'.asv = b.asv ∧ b'.lsv = b.lsv := by
-  obtain ⟨hasv, hlsv, ha, hl⟩ := hg
-  have hO := ONE_pos
-  cases op with
-  | deposit n =>
-    obtain ⟨⟨b1, x1⟩, hop, hr⟩ := map_ok h
-    injection hr with hr1 hr2
-    subst hr1; subst hr2
-    have hn' : 0 ≤ ofInt n := by unfold ofInt; simp only [opAmount] at hn; positivity
-    have g := increase_no_gain hop hn' hasv hlsv hl
-    have sv := inc_sv hop
-    have nn := inc_nonneg hop hn' hasv hlsv ha hl
-    refine ⟨?_, ⟨by rw [sv.1]; exact hasv, by rw [sv.2]; exact hlsv, nn.1, nn.2⟩, sv.1, sv.2⟩
-    unfold phi ofInt at *
-    simp only
-    nlinarith
-  | repay n =>
-    obtain ⟨⟨b1, x1⟩, hop, hr⟩ := map_ok h
-    injection hr with hr1 hr2
-    subst hr1; subst hr2
-    have hn' : 0 ≤ ofInt n := by unfold ofInt; simp only [opAmount] at hn; positivity
-    have g := increase_no_gain hop hn' hasv hlsv hl
-    have sv := inc_sv hop
-    have nn := inc_nonneg hop hn' hasv hlsv ha hl
-    refine ⟨?_, ⟨by rw [sv.1]; exact hasv, by rw [sv.2]; exact hlsv, nn.1, nn.2⟩, sv.1, sv.2⟩
-    unfold phi ofInt at *
-    simp only
-    nlinarith
-  | withdraw n =>
-    obtain ⟨⟨b1, x1⟩, hop, hr⟩ := map_ok h
-    injection hr with hr1 hr2
-    subst hr1; subst hr2
-    have hn' : 0 ≤ ofInt n := by unfold ofInt; simp only [opAmount] at hn; positivity
-    have g := decrease_bounded_gain hop hn' hasv hlsv ha
-    have sv := dec_sv hop
-    have nn := dec_nonneg hop hn' hasv hlsv ha hl
-    refine ⟨?_, ⟨by rw [sv.1]; exact hasv, by rw [sv.2]; exact hlsv, nn.1, nn.2⟩, sv.1, sv.2⟩
-    unfold phi ofInt at *
-    simp only
-    nlinarith
-  | borrow n =>
-    obtain ⟨⟨b1, x1⟩, hop, hr⟩ := map_ok h
-    injection hr with hr1 hr2
-    subst hr1; subst hr2
-    have hn' : 0 ≤ ofInt n := by unfold ofInt; simp only [opAmount] at hn; positivity
-    have g := decrease_bounded_gain hop hn' hasv hlsv ha
-    have sv := dec_sv hop
-    have nn := dec_nonneg hop hn' hasv hlsv ha hl
-    refine ⟨?_, ⟨by rw [sv.1]; exact hasv, by rw [sv.2]; exact hlsv, nn.1, nn.2⟩, sv.1, sv.2⟩
-    unfold phi ofInt at *
-    simp only
-    nlinarith
-
-/-- run a sequence of operations; a failing operation aborts its transaction and is skipped -/
-def runOps (b : Bank) (u : Holder) : List (Int × UserOp) → Bank × Holder
-  | [] => (b, u)
-  | (now, op) :: rest =>
-    match applyOp b u now op with
-    | .ok (b', u') => runOps b' u' rest
-    | .error _ => runOps b u rest
+    phi b' u' < phi b u + (b.asv + b.lsv) ∧ Good b' u' ∧ b'.asv = b.asv ∧ b'.lsv = b.lsv :=
+  Mfi.FreeL.op_gain_le h hg hn
 
 /-- **round_trip**: for EVERY sequence (any length, any order, any amounts, any timestamps) of
     deposits, withdrawals, borrows and repayments on a position at unchanged share values, the
@@ -403,42 +103,11 @@ def runOps (b : Bank) (u : Holder) : List (Int × UserOp) → Bank × Holder
 theorem round_trip (ops : List (Int × UserOp)) :
     ∀ (b : Bank) (u : Holder), Good b u → (∀ p ∈ ops, 0 ≤ opAmount p.2) →
       phi (runOps b u ops).1 (runOps b u ops).2 ≤ phi b u + ops.length * (b.asv + b.lsv) ∧
-      (runOps b u ops).1.asv = b.asv ∧ (runOps b u ops).1.lsv = b.lsv := by
-  induction ops with
-  | nil => intro b u _ _; simp [runOps]
-  | cons p rest ih =>
-    intro b u hg hn
-    obtain ⟨now, op⟩ := p
-    simp only [runOps]
-    have hn' : ∀ q ∈ rest, 0 ≤ opAmount q.2 := fun q hq => hn q (List.mem_cons_of_mem _ hq)
-    have hop0 : 0 ≤ opAmount op := hn (now, op) (List.mem_cons_self ..)
-    cases hres : applyOp b u now op with
-    | error e =>
-      simp only
-      have := ih b u hg hn'
-      refine ⟨?_, this.2.1, this.2.2⟩
-      have hpos : 0 ≤ b.asv + b.lsv := by have := hg.1; have := hg.2.1; omega
-      simp only [List.length_cons]
-      push_cast
-      nlinarith [this.1]
-    | ok r =>
-      obtain ⟨b', u'⟩ := r
-      simp only
-      obtain ⟨g1, g2, g3, g4⟩ := op_gain_le hres hg hop0
-      have := ih b' u' g2 hn'
-      rw [g3, g4] at this
-      refine ⟨?_, this.2.1, this.2.2⟩
-      simp only [List.length_cons]
-      push_cast
-      nlinarith [this.1]
+      (runOps b u ops).1.asv = b.asv ∧ (runOps b u ops).1.lsv = b.lsv :=
+  Mfi.FreeL.round_trip ops
 
-/-! ### Token-2022 transfer fee -/
-
-theorem chkU64_some {x y : Int} (h : chkU64 x = some y) : y = x ∧ 0 ≤ x ∧ x ≤ U64MAX := by
-  unfold chkU64 at h
-  split at h
-  · rename_i hr; injection h with h; exact ⟨h.symm, hr.1, hr.2⟩
-  · cases h
+theorem chkU64_some {x y : Int} (h : chkU64 x = some y) : y = x ∧ 0 ≤ x ∧ x ≤ U64MAX :=
+  Mfi.FreeL.chkU64_some h
 
 /-- **prefee_covers**: for every Token-2022 transfer-fee configuration (0 ≤ bps ≤ 10000, any cap)
     and every amount, the pre-fee amount marginfi pulls from the depositor, minus the fee the token
@@ -446,82 +115,8 @@ theorem chkU64_some {x y : Int} (h : chkU64 x = some y) : y = x ∧ 0 ≤ x ∧ 
     bank credits. -/
 theorem prefee_covers {bps maxFee post pre f : Int} (hb0 : 0 ≤ bps) (hb1 : bps ≤ 10000) (hm : 0 ≤ maxFee)
     (hp : 0 ≤ post) (h : preFee bps maxFee post = some pre) (hf : fee bps maxFee pre = some f) :
-    post ≤ pre - f := by
-  unfold preFee at h
-  by_cases h0 : bps = 0
-  · simp only [h0, ↓reduceIte] at h
-    injection h with h
-    subst h
-    simp [fee, h0] at hf
-    omega
-  · simp only [h0, ↓reduceIte] at h
-    by_cases hz : post = 0
-    · simp only [hz, ↓reduceIte] at h
-      injection h with h
-      subst h
-      simp [fee] at hf
-      omega
-    · simp only [hz, ↓reduceIte] at h
-      by_cases hfull : bps = 10000
-      · simp only [hfull, ↓reduceIte] at h
-        obtain ⟨e, _, _⟩ := chkU64_some h
-        subst e
-        subst hfull
-        unfold fee at hf
-        have : ¬ ((10000 : Int) = 0 ∨ maxFee + post = 0) := by omega
-        simp only [this, ↓reduceIte] at hf
-        cases hc : chkU64 (((maxFee + post) * 10000 + 10000 - 1) / 10000) with
-        | none => simp [hc] at hf
-        | some raw =>
-          simp only [hc, Option.map_some] at hf
-          injection hf with hf
-          obtain ⟨er, _, _⟩ := chkU64_some hc
-          omega
-      · simp only [hfull, ↓reduceIte] at h
-        have hD : ¬ (10000 - bps < 0) := by omega
-        simp only [hD, ↓reduceIte] at h
-        have hDpos : 0 < 10000 - bps := by omega
-        -- raw = ceil(post·10000 / D)
-        generalize hraw : (post * 10000 + (10000 - bps) - 1) / (10000 - bps) = raw at h
-        have hraw_ge : post * 10000 ≤ raw * (10000 - bps) := by
-          have := Int.lt_ediv_add_one_mul_self (post * 10000 + (10000 - bps) - 1) hDpos
-          rw [hraw] at this
-          nlinarith
-        unfold fee at hf
-        by_cases hcap : raw - post ≥ maxFee
-        · simp only [hcap, ↓reduceIte] at h
-          obtain ⟨e, _, _⟩ := chkU64_some h
-          subst e
-          have : ¬ (bps = 0 ∨ post + maxFee = 0) := by omega
-          simp only [this, ↓reduceIte] at hf
-          cases hc : chkU64 (((post + maxFee) * bps + 10000 - 1) / 10000) with
-          | none => simp [hc] at hf
-          | some r =>
-            simp only [hc, Option.map_some] at hf
-            injection hf with hf
-            omega
-        · simp only [hcap, ↓reduceIte] at h
-          obtain ⟨e, _, _⟩ := chkU64_some h
-          rw [e] at hf ⊢
-          have hrawpos : raw ≠ 0 := by
-            intro hr0; rw [hr0] at hraw_ge; omega
-          have : ¬ (bps = 0 ∨ raw = 0) := by omega
-          simp only [this, ↓reduceIte] at hf
-          cases hc : chkU64 ((raw * bps + 10000 - 1) / 10000) with
-          | none => simp [hc] at hf
-          | some r =>
-            simp only [hc, Option.map_some] at hf
-            injection hf with hf
-            obtain ⟨er, _, _⟩ := chkU64_some hc
-            -- f ≤ ceil(raw·bps/10000); raw − ceil(raw·bps/10000) ≥ post since raw·D ≥ post·10000
-            have hceil : (raw * bps + 10000 - 1) / 10000 * 10000 ≤ raw * bps + 10000 - 1 :=
-              Int.ediv_mul_le _ (by decide)
-            have hfle : f ≤ (raw * bps + 10000 - 1) / 10000 := by rw [← hf, er]; exact min_le_left _ _
-            nlinarith
-
-/-- well-formed transfer-fee configuration: what the token program itself accepts (bps ≤ 10000) -/
-def FeeCfgOk (c : FeeCfg) : Prop :=
-  0 ≤ c.olderBps ∧ c.olderBps ≤ 10000 ∧ 0 ≤ c.olderMax ∧ 0 ≤ c.newerBps ∧ c.newerBps ≤ 10000 ∧ 0 ≤ c.newerMax
+    post ≤ pre - f :=
+  Mfi.FreeL.prefee_covers hb0 hb1 hm hp h hf
 
 /-- **mint_prefee_covers**: the same at the level of the MINT, in every epoch — before, exactly at and after the activation
     of a scheduled fee change: the pre-fee amount marginfi computes for the mint (`calculate_pre_fee_spl_deposit_amount`), minus
@@ -530,42 +125,76 @@ def FeeCfgOk (c : FeeCfg) : Prop :=
     real helpers and the real token program's arithmetic on really laid-out mint accounts. -/
 theorem mint_prefee_covers {m : Mint} {epoch post pre f : Int} (hp : 0 ≤ post)
     (hm : ∀ c, m = .t22fee c → FeeCfgOk c)
-    (h : mintPre m epoch post = some pre) (hf : mintFee m epoch pre = some f) : post ≤ pre - f := by
-  cases m with
-  | spl => simp [mintPre] at h; simp [mintFee] at hf; omega
-  | t22 => simp [mintPre] at h; simp [mintFee] at hf; omega
-  | t22fee c =>
-    obtain ⟨a1, a2, a3, a4, a5, a6⟩ := hm c rfl
-    simp only [mintPre] at h
-    simp only [mintFee] at hf
-    unfold epochFee at h hf
-    by_cases he : epoch ≥ c.newerEpoch
-    · simp only [he, ↓reduceIte] at h hf
-      exact prefee_covers a4 a5 a6 hp h hf
-    · simp only [he, ↓reduceIte] at h hf
-      exact prefee_covers a1 a2 a3 hp h hf
+    (h : mintPre m epoch post = some pre) (hf : mintFee m epoch pre = some f) : post ≤ pre - f :=
+  Mfi.FreeL.mint_prefee_covers hp hm h hf
 
 /-- the epoch rule is inclusive: in the activation epoch itself the NEWER fee is the one in force -/
-theorem epoch_fee_inclusive (c : FeeCfg) : epochFee c c.newerEpoch = (c.newerBps, c.newerMax) := by
-  simp [epochFee]
-
-example : mintPre (.t22fee { olderBps := 100, olderMax := 1000000, newerEpoch := 500, newerBps := 500, newerMax := 1000000 }) 500 1000 = some 1053 := by decide
-example : mintPre (.t22fee { olderBps := 100, olderMax := 1000000, newerEpoch := 500, newerBps := 500, newerMax := 1000000 }) 499 1000 = some 1011 := by decide
-
-/-! ### non-vacuity -/
-def demoBank : Bank :=
-  { asv := ONE + 12345, lsv := ONE + 999, sa := 1000 * ONE, sl := 10 * ONE, feeI := 0, feeG := 0, feeP := 0,
-    depositLimit := 18446744073709551615, borrowLimit := 18446744073709551615, flags := 0, assetTag := 0,
-    mintDecimals := 6, emissionsRate := 0, emissionsRemaining := 0, lendCnt := 1, borrowCnt := 1, lastUpdate := 0,
-    cacheAccum := 0, cacheFor := 0 }
-def demoUser : Holder := ⟨1000, { active := true, tag := 0, a := 0, l := 0, emis := 0, lastUpdate := 0 }⟩
-example : Good demoBank demoUser := by unfold Good; decide
-example : (applyOp demoBank demoUser 0 (.deposit 7)).isOk = true := by decide
-example : (runOps demoBank demoUser [(0, .deposit 7), (0, .withdraw 3), (0, .withdraw 3)]).2.wallet = 999 := by decide
+theorem epoch_fee_inclusive (c : FeeCfg) : epochFee c c.newerEpoch = (c.newerBps, c.newerMax) :=
+  Mfi.FreeL.epoch_fee_inclusive c
 
 /-- the token-denominated accounting this file is about is the only accounting the standard instructions can reach:
     they are constrained to the program's own banks (constraint table regenerated from the source; Mfi.TagL) -/
 theorem standard_instructions_only_on_own_banks : Mfi.TagL.OwnBanks :=
-  Mfi.TagL.standard_instructions_only_on_own_banks
+  Mfi.FreeL.standard_instructions_only_on_own_banks
+
+/-! ### no free value at the level of WHOLE instructions (Mfi/Model/World.lean; proofs in Mfi/Lemmas/WorldFree.lean)
+
+`Pre c`: the context's books carry non-negative share values and fee buckets, the account's slots hold non-negative shares,
+the bank's configuration is an accepted one (`CfgOk`) and a live bank has a positive deposit share value — the invariant `SInv`
+of the world state machine provides all of it for every reachable state (C01 `world_solvency_history`). Values in 2^-96 token;
+`b` is the bank's books as the instruction itself accrued them. -/
+
+section whole_instructions
+open Mfi.World
+
+/-- **world_deposit_no_free_value**: a whole `lending_account_deposit` (clamped to the capacity or not, on a found or created slot,
+    any mint) raises the net value of the position it touches by no more than the tokens that reached the liquidity vault -/
+theorem world_deposit_no_free_value {c : Ctx} {amount : Int} {upTo : Bool} {o : Out} (h : World.deposit c amount upTo = .ok o)
+    (hp : Pre c) (ha : 0 ≤ amount) :
+    ∃ (b : Bank), accrueInterest c.b.books c.b.ir c.now = .ok b ∧
+      ((o.tokens = 0 ∧ o.slots = c.a.slots) ∨
+       ∃ (slots : List Account.Slot) (i : Nat) (s : Account.Slot) (x' : Balance),
+          Account.findOrCreate c.a.slots c.b.key b.assetTag c.now = .ok (slots, i) ∧
+          slots[i]? = some s ∧ o.slots = writeSlot c slots i x' ∧
+          netValue o.books x' - netValue b (toBal s) ≤ received c.ixEnv o.tokens * ONE * ONE) :=
+  deposit_free h hp ha
+
+/-- **world_borrow_no_free_value**: a whole `lending_account_borrow` lowers the position's net value by more than the tokens paid
+    out (the origination fee on top), short of them by less than one unit of each share value -/
+theorem world_borrow_no_free_value {c : Ctx} {amount : Int} {o : Out} (h : World.borrow c amount = .ok o) (hp : Pre c) (ha : 0 ≤ amount) :
+    ∃ (b : Bank) (slots : List Account.Slot) (i : Nat) (s : Account.Slot) (x' : Balance),
+      accrueInterest c.b.books c.b.ir c.now = .ok b ∧
+      Account.findOrCreate c.a.slots c.b.key b.assetTag c.now = .ok (slots, i) ∧ slots[i]? = some s ∧ o.slots = writeSlot c slots i x' ∧
+      o.tokens * ONE * ONE - (b.asv + b.lsv) < netValue b (toBal s) - netValue o.books x' :=
+  borrow_free h hp ha
+
+/-- **world_withdraw_no_free_value**: a partial `lending_account_withdraw` lowers the position's net value by more than the tokens
+    that leave the vault, short of them by less than one unit of each share value; a complete one pays no more than the exact
+    value of the closed deposit (and a completed deleverage pays at most that) -/
+theorem world_withdraw_no_free_value {c : Ctx} {amount : Int} {all : Bool} {o : Out} (h : World.withdraw c amount all = .ok o)
+    (hp : Pre c) (ha : 0 ≤ amount) :
+    ∃ (b : Bank) (i : Nat) (s : Account.Slot) (x' : Balance), accrueInterest c.b.books c.b.ir c.now = .ok b ∧ findSlot c = .ok (i, s) ∧
+      o.slots = writeSlot c c.a.slots i x' ∧
+      (if all then o.tokens * ONE * ONE ≤ s.a * b.asv ∧ x'.a = 0 ∧ x'.l = 0
+       else o.tokens * ONE * ONE - (b.asv + b.lsv) < netValue b (toBal s) - netValue o.books x') :=
+  withdraw_free h hp ha
+
+/-- **world_repay_no_free_value**: a partial `lending_account_repay` raises the position's net value by no more than the tokens that
+    reached the vault; a complete one charges at least the exact value of the closed debt less one ulp — unless it is the risk
+    admin's token-less repayment on a bank flagged for it (the sanctioned write-off of a sunset bank) -/
+theorem world_repay_no_free_value {c : Ctx} {amount : Int} {all : Bool} {o : Out} (h : World.repay c amount all = .ok o)
+    (hp : Pre c) (ha : 0 ≤ amount) :
+    ∃ (b : Bank) (i : Nat) (s : Account.Slot) (x' : Balance), accrueInterest c.b.books c.b.ir c.now = .ok b ∧ findSlot c = .ok (i, s) ∧
+      o.slots = writeSlot c c.a.slots i x' ∧
+      (if all then x'.a = 0 ∧ x'.l = 0 ∧ (tokenless c true = false → s.l * b.lsv - ONE < received c.ixEnv o.tokens * ONE * ONE)
+       else netValue o.books x' - netValue b (toBal s) ≤ received c.ixEnv o.tokens * ONE * ONE) :=
+  repay_free h hp ha
+
+end whole_instructions
+
+/-- the premises of the history theorem are satisfiable, and the operations really run -/
+example : Good demoBank demoUser := by unfold Mfi.FreeL.Good; decide
+example : (applyOp demoBank demoUser 0 (.deposit 7)).isOk = true := by decide
+example : (runOps demoBank demoUser [(0, .deposit 7), (0, .withdraw 3), (0, .withdraw 3)]).2.wallet = 999 := by decide
 
 end Mfi.Props.C03
